@@ -120,7 +120,7 @@ def platform : Platform :=
     sin := fun a => ofFloat (Float.sin (toFloat a))
     cos := fun a => ofFloat (Float.cos (toFloat a))
     tan := fun a => ofFloat (Float.tan (toFloat a))
-    now := F64.zero }
+    now := F64.ofNat 1790000000 }
 
 /-! ## dumps -/
 
@@ -220,6 +220,18 @@ def doRun (fuel : Nat) (src stdin : List Char) (repl : Bool) : String :=
   | some a => s!"ABN:{abnName a}"
   | none => s!"O:{hx r.out}\tE:{hx r.stderr}\tF:{b01 r.hadError}{b01 r.hadRuntimeError}\tN:{r.nativeCalls}\tI:{r.inputRest.length}"
 
+/-- `cli TAB hex(args joined by NUL) TAB hex(stdin) TAB (ok:hex(content) | missing)` -/
+def doCli (fuel : Nat) (argsHex stdinHex fileSpec : String) : String :=
+  let argText := textOfHex argsHex
+  let args : List (List Char) :=
+    if argText.isEmpty then [] else (String.ofList argText).splitOn "\x00" |>.map String.toList
+  let file : Option (List Char) :=
+    if fileSpec.startsWith "ok:" then some (textOfHex (fileSpec.drop 3).toString) else none
+  let r := Cli.main platform fuel args file (textOfHex stdinHex)
+  match r.abnormal with
+  | some a => s!"ABN:{abnName a}"
+  | none => s!"O:{hx r.out}\tE:{hx r.err}\tX:{r.status}"
+
 def bitsArg (s : String) : F64 :=
   F64.ofBits ((bytesOfHex s.toList).foldl (fun acc b => acc * 256 + b) 0)
 
@@ -262,6 +274,7 @@ def handle (fuel : Nat) (line : String) : String :=
   let f := line.splitOn "\t"
   match f with
   | "num" :: _ => doNum f
+  | ["cli", a, i, spec] => doCli fuel a i spec
   | mode :: rest =>
     let src := textOfHex (rest.getD 0 "")
     let stdin := textOfHex (rest.getD 1 "")
